@@ -478,9 +478,13 @@ DFSDgetdimlen(int dim, int *llabel, int *lunit, int *lformat)
     if (dim > Readsdg.rank)
         HGOTO_ERROR(DFE_BADDIM, FAIL);
 
-    *llabel  = (int)(Readsdg.dimluf[LABEL][dim - 1] ? strlen(Readsdg.dimluf[LABEL][dim - 1]) : 0);
-    *lunit   = (int)(Readsdg.dimluf[UNIT][dim - 1] ? strlen(Readsdg.dimluf[UNIT][dim - 1]) : 0);
-    *lformat = (int)(Readsdg.dimluf[FORMAT][dim - 1] ? strlen(Readsdg.dimluf[FORMAT][dim - 1]) : 0);
+    if (dim < 1)
+        HGOTO_ERROR(DFE_BADDIM, FAIL);
+
+    /* a data set without dimension strings has no pointer arrays at all */
+    *llabel  = (int)(Readsdg.dimluf[LABEL] && Readsdg.dimluf[LABEL][dim - 1] ? strlen(Readsdg.dimluf[LABEL][dim - 1]) : 0);
+    *lunit   = (int)(Readsdg.dimluf[UNIT] && Readsdg.dimluf[UNIT][dim - 1] ? strlen(Readsdg.dimluf[UNIT][dim - 1]) : 0);
+    *lformat = (int)(Readsdg.dimluf[FORMAT] && Readsdg.dimluf[FORMAT][dim - 1] ? strlen(Readsdg.dimluf[FORMAT][dim - 1]) : 0);
 
 done:
     return ret_value;
